@@ -42,18 +42,31 @@ func runC06(x *mc.X) {
 	rcc := mc.Pick(x, "resp.cache-control", c06RespCC)
 	expires := x.Choose("resp.expires", 2) == 1
 	reqKind := mc.Pick(x, "request", c06Reqs)
-	pre := mc.Pick(x, "store-state", []string{"empty", "fresh", "stale"})
+	pre := mc.Pick(x, "store-state", []string{"empty", "fresh", "stale", "stale+swr", "dangling-index", "corrupt-entry"})
 
 	w := world.New(world.Opt{})
 	defer w.Close()
 	oldTok := ""
 	if pre != "empty" {
-		ma := map[string]string{"fresh": "max-age=1000", "stale": "max-age=5"}[pre]
+		ma := map[string]string{"fresh": "max-age=1000", "stale": "max-age=5", "stale+swr": "max-age=5, stale-while-revalidate=1000",
+			"dangling-index": "max-age=1000", "corrupt-entry": "max-age=1000"}[pre]
 		answer(w, RS{Status: 200, H: H("Cache-Control", ma, "ETag", `"old"`)})
 		o0 := get(w, U)
 		logObs(x, "prologue GET (origin: 200 "+ma+")", o0)
 		oldTok = o0.Tok
 		world.Advance(secs(30))
+		if (pre == "dangling-index" || pre == "corrupt-entry") && len(o0.Ops) > 0 {
+			idx := o0.Ops[0].Key // the key looked up first is the URL's index; the other key holds the entry
+			for _, k := range w.Conn.Keys() {
+				if k != idx {
+					if pre == "dangling-index" {
+						_ = w.Conn.Delete(k)
+					} else {
+						w.Conn.Poke(k, []byte("garbage\n"))
+					}
+				}
+			}
+		}
 	}
 	h := hdrIf(nil, "Cache-Control", rcc)
 	if expires {
@@ -85,6 +98,8 @@ func runC06(x *mc.X) {
 	tok := ""
 	if len(o1.Calls) > 0 {
 		tok = o1.Calls[0].RespTok
+	} else if len(o1.BgCalls) > 0 {
+		tok = o1.BgCalls[0].RespTok // the response to the background revalidation
 	}
 	world.Advance(secs(1))
 	answer(w, RS{Status: 200, H: H("Cache-Control", "no-store")})
@@ -98,7 +113,7 @@ func runC06(x *mc.X) {
 	switch {
 	case tok == "":
 		why = ""
-	case status == 304 && pre == "stale":
+	case status == 304 && (pre == "stale" || pre == "stale+swr"):
 		why = "" // a 304 answering the cache's own validation request freshens the stored response (C08), it is not stored itself
 	case ccs.Has("no-store") || reqKind == "GET+no-store":
 		why = "no-store"
